@@ -230,8 +230,8 @@ class AstModel:
             return ['app', 'joinedstr', [E(v) for v in vals]]
         if isinstance(n, ast.GeneratorExp):
             k = len(self.nested)
+            self.nested.append(n)          # the function object is loaded before its first iterable is evaluated
             it = E(n.generators[0].iter)
-            self.nested.append(n)
             return ['app', 'call', [['atom', self.atoms('<genexpr:%d>' % k)], it]]
         raise Unsupported('node ' + type(n).__name__)
     def top(self, n, kind):
@@ -607,28 +607,58 @@ def prepare(src):
     return prepare_code(code, kind, src)
 
 
-def prepare_code(code, kind, src):
+def prepare_code(code, kind, src, node=None, depth=0):
+    """`node` given: the sub-tree the decompiler produced for a nested generator (first iterable already replaced by `.0`)"""
     atoms = Atoms()
     atoms('.0')
-    p = {'src': src, 'kind': kind, 'code': code}
+    p = {'src': src, 'kind': kind, 'code': code, 'subs': []}
     p['model_code'] = to_model(code, atoms)
-    node, err = decompile_real(code)
+    err = None
+    if node is None: node, err = decompile_real(code)
     p['decompile_error'] = err; p['node'] = node
     p['model_ast'] = None; p['ast_unsupported'] = None
-    p['nested'] = []
     if node is not None:
         try:
             am = AstModel(atoms)
             p['model_ast'] = am.top(node, kind)
             inner = code_consts(code)
             if len(am.nested) != len(inner): raise Unsupported('nested generators: %d in the AST, %d code objects' % (len(am.nested), len(inner)))
-            p['nested'] = list(zip(inner, am.nested))
+            if depth < 6:
+                import copy
+                for k, (ic, inode) in enumerate(zip(inner, am.nested)):
+                    inode = copy.copy(inode); inode.generators = list(inode.generators)
+                    g0 = copy.copy(inode.generators[0]); g0.iter = ast.Name('.0', ast.Load()); inode.generators[0] = g0
+                    p['subs'].append(prepare_code(ic, 'gen', '%s  [nested generator %d]' % (src, k), inode, depth + 1))
         except Unsupported as e:
-            p['ast_unsupported'] = str(e); p['model_ast'] = None
+            p['ast_unsupported'] = str(e); p['model_ast'] = None; p['subs'] = []
         except Exception as e:      # an AST python itself cannot make sense of (wrong node classes, missing fields)
-            p['ast_unsupported'] = 'malformed AST: %s' % type(e).__name__; p['model_ast'] = None
+            p['ast_unsupported'] = 'malformed AST: %s' % type(e).__name__; p['model_ast'] = None; p['subs'] = []
     p['names'] = atoms.names
     return p
+
+
+def flatten(p):
+    out = [p]
+    for s in p['subs']: out += flatten(s)
+    return out
+
+
+def judge_tree(p, replies, limit=256):
+    """judge a program and, separately, every nested generator the decompiler rebuilt inside it (the enclosing expression treats a
+    nested generator as an opaque function of its first iterable); `replies`: iterator of driver replies in `flatten` order"""
+    j = judge(p, next(replies), limit)
+    for s in p['subs']:
+        js = judge_tree(s, replies, limit)
+        j['paths'] += js['paths']
+        if js['violation'] and not j['violation']:
+            j['violation'] = js['violation']; j['status'] = 'MEANING-CHANGED'
+            j['decompiled'] = '%s  [nested: %s]' % (j['decompiled'], js['decompiled'])
+        if js['divergence'] and not j['divergence']: j['divergence'] = js['divergence']
+        if j['status'] == 'proved-equal' and js['status'] != 'proved-equal':
+            j['status'] = js['status'] if js['status'] != 'MEANING-CHANGED' else j['status']; j['check'] = js['check']
+        if js.get('validation_skipped') and not j.get('validation_skipped'): j['validation_skipped'] = js['validation_skipped']
+        j['model_unsupported'] = j['model_unsupported'] or js['model_unsupported']
+    return j
 
 
 def request_of(p):
@@ -831,7 +861,7 @@ def violates(kind, e):
     except Exception:
         return None
     if p['node'] is None: return None
-    j = judge(p, {}, limit=512)
+    j = judge_tree(p, itertools.repeat({}), limit=512)
     return j if j['violation'] else None
 
 
@@ -995,7 +1025,7 @@ def violates_src(src):
     except Exception:
         return None
     if p['node'] is None: return None
-    j = judge(p, {}, limit=512)
+    j = judge_tree(p, itertools.repeat({}), limit=512)
     return j if j['violation'] else None
 
 
@@ -1102,7 +1132,7 @@ def run_chunk(args):
     sys.setrecursionlimit(10000)
     import warnings; warnings.simplefilter('ignore')
     programs = [(pr if isinstance(pr, str) else render_prog(pr), pr) for pr in programs]
-    out = {'counts': {}, 'violations': [], 'divergences': [], 'samples': [], 'n': 0, 'errors': []}
+    out = {'counts': {}, 'violations': [], 'divergences': [], 'samples': [], 'n': 0, 'errors': [], 'examples': []}
     def count(k, n=1): out['counts'][k] = out['counts'].get(k, 0) + n
     prepared = []
     for src, pr in programs:
@@ -1113,15 +1143,22 @@ def run_chunk(args):
     replies = [{}] * len(prepared)
     if cmd:
         try:
-            replies = call_driver(cmd, cwd, [request_of(p) for _, _, p in prepared])
+            flat = [request_of(q) for _, _, p in prepared for q in flatten(p)]
+            flat_replies = call_driver(cmd, cwd, flat)
+            replies = []; pos = 0
+            for _, _, p in prepared:
+                n = len(flatten(p)); replies.append(flat_replies[pos:pos + n]); pos += n
         except Exception as e:
             out['errors'].append('driver: %s' % e); replies = [{}] * len(prepared)
     for (src, pr, p), r in zip(prepared, replies):
         out['n'] += 1
-        if 'driver_error' in r:
-            out['errors'].append('%s: driver_error %s' % (src, r['driver_error'])); r = {}
+        rl = r if isinstance(r, list) else [r] * len(flatten(p))
+        for x in rl:
+            if 'driver_error' in x: out['errors'].append('%s: driver_error %s' % (src, x['driver_error']))
+        rl = [({} if 'driver_error' in x else x) for x in rl]
+        r = rl[0]
         try:
-            j = judge(p, r)
+            j = judge_tree(p, iter(rl))
         except Exception as e:
             out['errors'].append('%s: judge failed: %s: %s' % (src, type(e).__name__, e)); continue
         slots = [] if isinstance(pr, str) else prog_slots(pr)
@@ -1164,6 +1201,8 @@ def run_chunk(args):
                 out['violations'].append({'key': key, 'src': src, 'minimal': msrc, 'decompiled': mj['decompiled'], 'assign': mj['violation']['assign'],
                                           'original_outcome': mj['violation']['original'], 'decompiled_outcome': mj['violation']['decompiled']})
         if len(out['samples']) < 2: out['samples'].append({'src': src, 'status': j['status'], 'decompiled': j['decompiled']})
+        if j['status'].startswith(('checker-incomplete', 'unsupported-by-checker', 'decompiled-ast-not-compilable')) and len(out['examples']) < 3:
+            out['examples'].append({'src': src, 'status': j['status'], 'decompiled': j['decompiled'], 'why': p['ast_unsupported'] or j.get('recompile_error')})
     return out
 
 
@@ -1178,6 +1217,8 @@ def report(ctx, results):
         for k, v in res['counts'].items(): ctx.count(k, v)
         for e in res['errors']: ctx.count('harness-error'); ctx.note(e[:300])
         for s in res['samples']: ctx.case(s, kind='program')
+        ex = ctx.extra.setdefault('examples_not_proved', [])
+        if len(ex) < 12: ex.extend(res['examples'][:2])
         for d in res['divergences']:
             ctx.divergence('the bytecode model (decision tree of symRun) and CPython disagree on the outcome of the code object', d['src'], model=d['model'], impl={'real': d['real'], 'assign': d['assign']})
         for v in res['violations']:
